@@ -7,6 +7,7 @@ import (
 	"fmt"
 	"go/token"
 	"go/types"
+	"os"
 
 	"golang.org/x/tools/go/ssa"
 )
@@ -1015,6 +1016,9 @@ func ruleCacheKey(w *World, r *Report, in map[*ssa.Function]bool) {
 					}
 				}
 			}
+			if os.Getenv("SID_DEBUG_CACHE") != "" {
+				fmt.Fprintf(os.Stderr, "DEBUG cache %s: map %s valueUsed=%v updates=%d\n", name, mm.Name(), valueUsed, len(updates))
+			}
 			if !valueUsed || len(updates) == 0 {
 				return
 			}
@@ -1035,7 +1039,14 @@ func ruleCacheKey(w *World, r *Report, in map[*ssa.Function]bool) {
 				}
 				if call == nil {
 					// a struct/array literal of call results
-					if vals, ok := arrayLiteral(mu.Value); ok {
+					vals, ok := arrayLiteral(mu.Value)
+					if !ok {
+						vals, ok = arrayLiteral(resolve(mu.Value))
+					}
+					if !ok {
+						vals, ok = structLiteralFields(resolve(mu.Value))
+					}
+					if ok {
 						for _, v := range vals {
 							if ex, ok := resolve(v).(*ssa.Extract); ok {
 								if c, ok := ex.Tuple.(*ssa.Call); ok {
@@ -1043,6 +1054,12 @@ func ruleCacheKey(w *World, r *Report, in map[*ssa.Function]bool) {
 								}
 							}
 						}
+					}
+				}
+				if os.Getenv("SID_DEBUG_CACHE") != "" {
+					fmt.Fprintf(os.Stderr, "DEBUG cache %s: update %s call=%v value=%s resolved=%s\n", name, shortInstr(mu), call != nil, describeValue(mu.Value), describeValue(resolve(mu.Value)))
+					for _, in := range mu.Block().Instrs {
+						fmt.Fprintf(os.Stderr, "      %s\n", shortInstr(in))
 					}
 				}
 				if call == nil {
@@ -1060,11 +1077,19 @@ func ruleCacheKey(w *World, r *Report, in map[*ssa.Function]bool) {
 						continue
 					}
 					for _, blk := range f.Blocks {
-						_, fl, ifi := ifSuccs(blk)
-						if ifi == nil || resolve(ifi.Cond) != ssa.Value(okv) {
+						t, fl, ifi := ifSuccs(blk)
+						if ifi == nil {
 							continue
 						}
-						if fl == call.Block() || blockDominatedByEdge(f, blk, fl, call.Block()) {
+						miss := fl
+						cond := resolve(ifi.Cond)
+						if u, isNot := cond.(*ssa.UnOp); isNot && u.Op == token.NOT {
+							cond, miss = resolve(u.X), t
+						}
+						if cond != ssa.Value(okv) {
+							continue
+						}
+						if miss == call.Block() || blockDominatedByEdge(f, blk, miss, call.Block()) {
 							onMiss = true
 						}
 					}
